@@ -61,6 +61,7 @@ Proof.
   destruct (negb (actuals_match (cf_params f) actuals)); [reflexivity|].
   destruct (negb (all_hold guard_holds st actuals (cf_guards f))); [reflexivity|].
   destruct (negb (all_hold class_holds st actuals (cf_casts f))); [reflexivity|].
+  destruct (zguard_fires actuals (cf_zguards f)); [reflexivity|].
   destruct (resolve_all st actuals (cf_args f)) as [cargs|]; [|reflexivity].
   destruct (cf_tmpl f =? "$") eqn:Et.
   - destruct cargs as [|c [|c2 r]]; cbn [fst]; try reflexivity.
@@ -112,6 +113,8 @@ Proof.
   destruct (negb (all_hold guard_holds st actuals (cf_guards f))).
   { left. exists SYMENGINE_RUNTIME_ERROR. split; reflexivity. }
   destruct (negb (all_hold class_holds st actuals (cf_casts f))); [right; left; reflexivity|].
+  destruct (zguard_fires actuals (cf_zguards f)) as [zc|].
+  { left. exists zc. split; reflexivity. }
   destruct (resolve_all st actuals (cf_args f)) as [cargs|]; [|right; right; reflexivity].
   set (r := if cf_tmpl f =? "$" then match cargs with [c] => Ok c | _ => ErrFuel end else core k (cf_tmpl f) cargs).
   destruct r as [v| | |cls]; try (right; right; reflexivity).
@@ -137,13 +140,14 @@ Theorem error_atomic : forall core f k st actuals cargs cls,
   actuals_match (cf_params f) actuals = true ->
   all_hold guard_holds st actuals (cf_guards f) = true ->
   all_hold class_holds st actuals (cf_casts f) = true ->
+  zguard_fires actuals (cf_zguards f) = None ->
   resolve_all st actuals (cf_args f) = Some cargs ->
   (cf_tmpl f =? "$") = false ->
   core k (cf_tmpl f) cargs = ErrExn cls ->
   fwd_step core f k st actuals = (RetCode (code_of_exn cls), st) /\ code_of_exn cls <> SYMENGINE_NO_EXCEPTION.
 Proof.
-  intros core f k st actuals cargs cls Hw Ha Hg Hc Hr Ht He.
-  unfold fwd_step. rewrite Ha, Hg, Hc, Hr, Ht, He, Hw. cbn [negb]. split; [reflexivity|apply code_of_exn_nonzero].
+  intros core f k st actuals cargs cls Hw Ha Hg Hc Hz Hr Ht He.
+  unfold fwd_step. rewrite Ha, Hg, Hc, Hz, Hr, Ht, He, Hw. cbn [negb]. split; [reflexivity|apply code_of_exn_nonzero].
 Qed.
 
 (* ------------------------------------------------------------------ agreement with the C++ API value of an expected row *)
@@ -160,6 +164,7 @@ Theorem agrees_sem : forall core f e k st actuals,
   actuals_match (cf_params f) actuals = true ->
   all_hold guard_holds st actuals (cf_guards f) = true ->
   all_hold class_holds st actuals (cf_casts f) = true ->
+  zguard_fires actuals (cf_zguards f) = None ->
   match spec_call core e k st actuals with
   | Some (Ok v) =>
       match spec_store e st actuals v with
@@ -172,11 +177,11 @@ Theorem agrees_sem : forall core f e k st actuals,
   | _ => fst (fwd_step core f k st actuals) = Unmodelled
   end.
 Proof.
-  intros core f e k st actuals Hr Ha Hg Hc.
+  intros core f e k st actuals Hr Ha Hg Hc Hz.
   unfold row_agrees in Hr. apply andb_true_iff in Hr. destruct Hr as [Hr H3].
   apply andb_true_iff in Hr. destruct Hr as [H1 H2].
   apply outk_eqb_eq in H1. apply String.eqb_eq in H2. apply natlist_eqb_eq in H3.
-  unfold spec_call, spec_store, fwd_step. rewrite Ha, Hg, Hc. cbn [negb]. rewrite <- H1, <- H2, <- H3.
+  unfold spec_call, spec_store, fwd_step. rewrite Ha, Hg, Hc, Hz. cbn [negb]. rewrite <- H1, <- H2, <- H3.
   destruct (resolve_all st actuals (cf_args f)) as [cargs|]; [|reflexivity].
   destruct (if cf_tmpl f =? "$" then match cargs with [c] => Ok c | _ => ErrFuel end else core k (cf_tmpl f) cargs)
     as [v| | |cls]; try reflexivity.
@@ -250,6 +255,7 @@ Proof.
   destruct (negb (actuals_match (cf_params f) actuals)); [exact Hi|].
   destruct (negb (all_hold guard_holds st actuals (cf_guards f))); [exact Hi|].
   destruct (negb (all_hold class_holds st actuals (cf_casts f))); [exact Hi|].
+  destruct (zguard_fires actuals (cf_zguards f)); [exact Hi|].
   destruct (resolve_all st actuals (cf_args f)) as [cargs|] eqn:Er; [|exact Hi].
   assert (Hv : forall v, (if cf_tmpl f =? "$" then match cargs with [c] => Ok c | _ => ErrFuel end
                           else core k (cf_tmpl f) cargs) = Ok v -> cval_ok v).
@@ -315,20 +321,23 @@ Proof.
     destruct actuals as [|[] [|[] [|[] [|]]]]; try exact Hi.
     destruct (nth_error (s_v st) i) eqn:E1; [|exact Hi].
     destruct (z <? 0)%Z; [exact Hi|]. destruct (negb (i0 <? length (s_b st))%nat); [exact Hi|].
+    destruct (length l <=? Z.to_nat z)%nat; [exact Hi|].
     destruct (nth_error l (Z.to_nat z)) eqn:E3; [|exact Hi].
     cbn [snd]. apply set_b_inv; auto.
     eapply Forall_nth_error; [|exact E3]. eapply (Forall_nth_error _ (Forall val_wf)); eauto.
   - (* set *) unfold h_vec_set.
     destruct actuals as [|[] [|[] [|[] [|]]]]; try exact Hi.
     destruct (nth_error (s_v st) i) eqn:E1; [|exact Hi]. destruct (nth_error (s_b st) i0) eqn:E2; [|exact Hi].
-    destruct (z <? 0)%Z; [exact Hi|]. destruct (Z.to_nat z <? length l)%nat; [|exact Hi].
+    destruct (z <? 0)%Z; [exact Hi|]. destruct (length l <=? Z.to_nat z)%nat; [exact Hi|].
+    destruct (Z.to_nat z <? length l)%nat; [|exact Hi].
     cbn [snd]. apply set_v_inv; auto. apply Forall_upd_nth.
     + eapply (Forall_nth_error _ (Forall val_wf)); eauto.
     + eapply Forall_nth_error; eauto.
   - (* erase *) unfold h_vec_erase.
     destruct actuals as [|[] [|[] [|]]]; try exact Hi.
     destruct (nth_error (s_v st) i) eqn:E1; [|exact Hi].
-    destruct (z <? 0)%Z; [exact Hi|]. destruct (Z.to_nat z <? length l)%nat; [|exact Hi].
+    destruct (z <? 0)%Z; [exact Hi|]. destruct (length l <=? Z.to_nat z)%nat; [exact Hi|].
+    destruct (Z.to_nat z <? length l)%nat; [|exact Hi].
     cbn [snd]. apply set_v_inv; auto. apply Forall_remove_nth. eapply (Forall_nth_error _ (Forall val_wf)); eauto.
   - (* size *) unfold h_vec_size.
     destruct actuals as [|[] [|]]; try exact Hi. destruct (nth_error (s_v st) i); exact Hi.
@@ -458,43 +467,56 @@ Proof.
   - cbn. unfold h_vec_size. cbn in Hl1. rewrite Hl1. rewrite app_length. cbn. rewrite Nat.add_1_r. reflexivity.
   - change (hand_step "vecbasic_get") with h_vec_get. unfold h_vec_get. rewrite Hl1, Hk1.
     replace (Z.of_nat (length l) <? 0)%Z with false by (symmetry; apply Z.ltb_ge; lia).
-    rewrite Nat2Z.id. rewrite nth_app_last. reflexivity.
+    rewrite Nat2Z.id. cbn [negb].
+    replace (length (l ++ [v])%list <=? length l)%nat with false
+      by (symmetry; apply Nat.leb_gt; rewrite app_length; cbn; lia).
+    rewrite nth_app_last. reflexivity.
   - intros n x Hn. change (hand_step "vecbasic_get") with h_vec_get. unfold h_vec_get. rewrite Hl1, Hk1.
     replace (Z.of_nat n <? 0)%Z with false by (symmetry; apply Z.ltb_ge; lia).
-    rewrite Nat2Z.id. rewrite nth_app_old by (eapply nth_error_lt; eauto). rewrite Hn. reflexivity.
+    rewrite Nat2Z.id. cbn [negb].
+    assert (Hnl : (n < length l)%nat) by (eapply nth_error_lt; eauto).
+    replace (length (l ++ [v])%list <=? n)%nat with false
+      by (symmetry; apply Nat.leb_gt; rewrite app_length; cbn; lia).
+    rewrite nth_app_old by exact Hnl. rewrite Hn. reflexivity.
   - change (hand_step "vecbasic_set") with h_vec_set. unfold h_vec_set. rewrite Hl, Hv.
     replace (Z.of_nat n <? 0)%Z with false by (symmetry; apply Z.ltb_ge; lia).
-    rewrite Nat2Z.id. replace (n <? length l)%nat with true by (symmetry; apply Nat.ltb_lt; assumption). reflexivity.
+    rewrite Nat2Z.id. replace (length l <=? n)%nat with false by (symmetry; apply Nat.leb_gt; assumption).
+    replace (n <? length l)%nat with true by (symmetry; apply Nat.ltb_lt; assumption). reflexivity.
   - apply nth_upd_nth_eq. assumption.
   - intros m Hm. apply nth_upd_nth_ne. congruence.
   - apply upd_nth_length.
   - change (hand_step "vecbasic_erase") with h_vec_erase. unfold h_vec_erase. rewrite Hl.
     replace (Z.of_nat n <? 0)%Z with false by (symmetry; apply Z.ltb_ge; lia).
-    rewrite Nat2Z.id. replace (n <? length l)%nat with true by (symmetry; apply Nat.ltb_lt; assumption). reflexivity.
+    rewrite Nat2Z.id. replace (length l <=? n)%nat with false by (symmetry; apply Nat.leb_gt; assumption).
+    replace (n <? length l)%nat with true by (symmetry; apply Nat.ltb_lt; assumption). reflexivity.
   - apply remove_nth_length. assumption.
   - intros m Hm. apply nth_remove_nth_lt. assumption.
   - intros m Hm. apply nth_remove_nth_ge. assumption.
 Qed.
 
-(* ... and, AS CODED, an index outside the vector is not answered with an error code: the model reaches the
-   unchecked access.  (Refutes "every call returns a result or an error code" for vecbasic_get / set / erase
-   and setbasic_get; replayed on the library: abort under _GLIBCXX_ASSERTIONS, SIGSEGV, or silent corruption.) *)
-Theorem vec_out_of_range_unchecked : forall st i j l n,
-  nth_error (s_v st) i = Some l -> (j < length (s_b st))%nat -> (length l <= n)%nat ->
-  hand_step "vecbasic_get" st [AV i; AZ (Z.of_nat n); AB j] = (MemErr (N.of_nat n) (nlen l), st) /\
-  hand_step "vecbasic_erase" st [AV i; AZ (Z.of_nat n)] = (MemErr (N.of_nat n) (nlen l), st).
+(* an index outside the vector is answered with SYMENGINE_RUNTIME_ERROR and nothing changes
+   (vecbasic_get / set / erase since the repair of the unchecked accesses; setbasic_get is still unchecked, below) *)
+Theorem vec_out_of_range_error : forall st i j l n,
+  nth_error (s_v st) i = Some l -> nth_error (s_b st) j <> None -> (length l <= n)%nat ->
+  hand_step "vecbasic_get" st [AV i; AZ (Z.of_nat n); AB j] = (RetCode SYMENGINE_RUNTIME_ERROR, st) /\
+  hand_step "vecbasic_set" st [AV i; AZ (Z.of_nat n); AB j] = (RetCode SYMENGINE_RUNTIME_ERROR, st) /\
+  hand_step "vecbasic_erase" st [AV i; AZ (Z.of_nat n)] = (RetCode SYMENGINE_RUNTIME_ERROR, st).
 Proof.
-  intros st i j l n Hl Hj Hn. split.
+  intros st i j l n Hl Hj Hn.
+  assert (Hjl : (j < length (s_b st))%nat) by (apply nth_error_Some; exact Hj).
+  destruct (nth_error (s_b st) j) as [v|] eqn:Ev; [|contradiction Hj; reflexivity].
+  repeat split.
   - change (hand_step "vecbasic_get") with h_vec_get. unfold h_vec_get. rewrite Hl.
     replace (Z.of_nat n <? 0)%Z with false by (symmetry; apply Z.ltb_ge; lia).
     replace (j <? length (s_b st))%nat with true by (symmetry; apply Nat.ltb_lt; assumption).
     rewrite Nat2Z.id. cbn [negb].
-    replace (nth_error l n) with (@None val) by (symmetry; apply nth_error_None; assumption).
-    rewrite <- nat_N_Z. rewrite N2Z.id. reflexivity.
+    replace (length l <=? n)%nat with true by (symmetry; apply Nat.leb_le; assumption). reflexivity.
+  - change (hand_step "vecbasic_set") with h_vec_set. unfold h_vec_set. rewrite Hl, Ev.
+    replace (Z.of_nat n <? 0)%Z with false by (symmetry; apply Z.ltb_ge; lia).
+    rewrite Nat2Z.id. replace (length l <=? n)%nat with true by (symmetry; apply Nat.leb_le; assumption). reflexivity.
   - change (hand_step "vecbasic_erase") with h_vec_erase. unfold h_vec_erase. rewrite Hl.
     replace (Z.of_nat n <? 0)%Z with false by (symmetry; apply Z.ltb_ge; lia).
-    rewrite Nat2Z.id. replace (n <? length l)%nat with false by (symmetry; apply Nat.ltb_ge; assumption).
-    rewrite <- nat_N_Z. rewrite N2Z.id. reflexivity.
+    rewrite Nat2Z.id. replace (length l <=? n)%nat with true by (symmetry; apply Nat.leb_le; assumption). reflexivity.
 Qed.
 
 (* CSetBasic behaves as a set of eq-classes *)
